@@ -53,12 +53,20 @@ def _own_state_params(m, mi, fd):
                    and a.value is not None and any(
                        isinstance(t, ast.Name) and t.id == e.id for t in (
                            a.targets if isinstance(a, ast.Assign) else [a.target]))]
-            return bool(asg) and all(
-                isinstance(v, (ast.Dict, ast.List, ast.Set, ast.ListComp, ast.DictComp,
-                               ast.SetComp))
-                or (isinstance(v, ast.Call) and isinstance(v.func, ast.Name)
-                    and v.func.id in ("dict", "list", "set", "defaultdict", "OrderedSet"))
-                for v in asg)
+            def fresh(v):
+                if isinstance(v, (ast.Dict, ast.List, ast.Set, ast.ListComp, ast.DictComp,
+                                  ast.SetComp)):
+                    return True
+                if isinstance(v, ast.Subscript) and isinstance(v.slice, ast.Slice):
+                    # a slice of a fresh list (or of the local itself) is a fresh list
+                    return fresh(v.value) or (isinstance(v.value, ast.Name)
+                                              and v.value.id == e.id)
+                if isinstance(v, ast.BinOp) and isinstance(v.op, ast.Add):
+                    return fresh(v.left) or fresh(v.right)
+                return isinstance(v, ast.Call) and isinstance(v.func, ast.Name) \
+                    and v.func.id in ("dict", "list", "set", "defaultdict", "OrderedSet",
+                                      "sorted")
+            return bool(asg) and all(fresh(v) for v in asg)
         return False
     params = set(sites[0][1])
     return {q for q in params if all(q in b and own(g, b[q]) for g, b in sites)}
